@@ -30,7 +30,7 @@ def convertEntries(entries):
     return result
 
 
-def getCollectionValue(collection, what):
+def getCollectionValue(collection, what, pos=None):
     if collection.isList():
         return collection.value
     elif collection.isSet():
@@ -52,7 +52,9 @@ def getCollectionValue(collection, what):
         return [ch for ch in collection.value]
     else:
         raise CklRuntimeError(
-            ValueString("ERROR"), f"Cannot iterate over {collection.type()}"
+            ValueString("ERROR"),
+            f"Cannot iterate over {collection.type()}",
+            pos,
         )
 
 
@@ -1240,7 +1242,7 @@ class NodeListComprehension:
         result = ValueList()
         localEnv = environment.newEnv()
         lst = self.listExpr.evaluate(environment)
-        values = getCollectionValue(lst, self.what)
+        values = getCollectionValue(lst, self.what, self.pos)
         for listValue in values:
             localEnv.put(self.identifier, listValue)
             value = self.valueExpr.evaluate(localEnv)
@@ -1319,8 +1321,8 @@ class NodeListComprehensionParallel:
         localEnv = environment.newEnv()
         list1 = self.listExpr1.evaluate(environment)
         list2 = self.listExpr2.evaluate(environment)
-        values1 = getCollectionValue(list1, self.what1)
-        values2 = getCollectionValue(list2, self.what2)
+        values1 = getCollectionValue(list1, self.what1, self.pos)
+        values2 = getCollectionValue(list2, self.what2, self.pos)
         for i in range(max(len(values1), len(values2))):
             listValue1 = values1[i] if i < len(values1) else None
             listValue2 = values2[i] if i < len(values2) else None
@@ -1410,8 +1412,8 @@ class NodeListComprehensionProduct:
         localEnv = environment.newEnv()
         list1 = self.listExpr1.evaluate(environment)
         list2 = self.listExpr2.evaluate(environment)
-        values1 = getCollectionValue(list1, self.what1)
-        values2 = getCollectionValue(list2, self.what2)
+        values1 = getCollectionValue(list1, self.what1, self.pos)
+        values2 = getCollectionValue(list2, self.what2, self.pos)
         for listValue1 in values1:
             localEnv.put(self.identifier1, listValue1)
             for listValue2 in values2:
@@ -1539,7 +1541,7 @@ class NodeMapComprehension:
         result = ValueMap()
         localEnv = environment.newEnv()
         lst = self.listExpr.evaluate(environment)
-        values = getCollectionValue(lst, self.what)
+        values = getCollectionValue(lst, self.what, self.pos)
         for listValue in values:
             localEnv.put(self.identifier, listValue)
             key = self.keyExpr.evaluate(localEnv)
@@ -1897,7 +1899,7 @@ class NodeSetComprehension:
         result = ValueSet()
         localEnv = environment.newEnv()
         lst = self.listExpr.evaluate(environment)
-        values = getCollectionValue(lst, self.what)
+        values = getCollectionValue(lst, self.what, self.pos)
         for listValue in values:
             localEnv.put(self.identifier, listValue)
             value = self.valueExpr.evaluate(localEnv)
@@ -1967,8 +1969,8 @@ class NodeSetComprehensionParallel:
         localEnv = environment.newEnv()
         list1 = self.listExpr1.evaluate(environment)
         list2 = self.listExpr2.evaluate(environment)
-        values1 = getCollectionValue(list1, self.what1)
-        values2 = getCollectionValue(list2, self.what2)
+        values1 = getCollectionValue(list1, self.what1, self.pos)
+        values2 = getCollectionValue(list2, self.what2, self.pos)
         for i in range(max(len(values1), len(values2))):
             localEnv.put(
                 self.identifier1, values1[i] if i < len(values1) else NULL
@@ -2056,8 +2058,8 @@ class NodeSetComprehensionProduct:
         localEnv = environment.newEnv()
         list1 = self.listExpr1.evaluate(environment)
         list2 = self.listExpr2.evaluate(environment)
-        values1 = getCollectionValue(list1, self.what1)
-        values2 = getCollectionValue(list2, self.what2)
+        values1 = getCollectionValue(list1, self.what1, self.pos)
+        values2 = getCollectionValue(list2, self.what2, self.pos)
         for value1 in values1:
             localEnv.put(self.identifier1, value1)
             for value2 in values2:
